@@ -9,9 +9,9 @@ import time
 
 VERIF = os.path.dirname(os.path.dirname(os.path.abspath(__file__)))
 SPEC = os.path.join(VERIF, "spec")
-WORK = os.path.join(VERIF, "work")
+WORK = os.environ.get("VERIF_WORK") or os.path.join(VERIF, "work")
 BUILD = os.path.join(VERIF, "build")
-EVID = os.path.join(VERIF, "evidence")
+EVID = os.environ.get("VERIF_EVID") or os.path.join(VERIF, "evidence")
 REPO = os.environ.get("VERIF_REPO", "/repo")
 TLA_JAR = "/opt/veriftools/tla/tla2tools.jar"
 
